@@ -31,8 +31,10 @@
 // The generator does not use the code under test.
 //
 // Numeric paths exercised on purpose (the values must arrive in the database exactly as written):
-// INT / HEX attribute values beyond 2^24, 2^32 and up to 2^53 (start values, cycle and delay times,
-// attribute ranges and defaults; plain, ".0" and exponent spellings), factors / offsets / minima /
+// INT / HEX attribute values beyond 2^24, 2^32, 2^53 and up to the int64 limits (start values,
+// attribute ranges and defaults, generic INT / HEX attributes; cycle and delay times up to the
+// largest millisecond count whose nanoseconds fit an int64; decimal integers are read exactly since
+// the fix F12, the ".0" and exponent spellings - only used up to 2^53 - still travel through float64), factors / offsets / minima /
 // maxima with up to 25 significant digits and exponents (pool + random literals), message ids at the
 // limits of the standard and extended ranges, signals at the limits of start / size / multiplexer
 // value.  Signal names are reused across messages and the signal-level metadata lines of one name
@@ -222,11 +224,12 @@ func (g *gen) float() string {
 }
 
 // an integer whose magnitude exercises the precision of whatever the parser routes INT values
-// through: beyond 2^24 (float32), beyond 2^32, up to lim (<= 2^53: exact in float64), low bits set
+// through: beyond 2^24 (float32), beyond 2^32, beyond 2^53 (float64; lim = math.MaxInt64 since the
+// fix F12), up to lim, low bits set
 func (g *gen) bigInt(lim int64) int64 {
 	r := g.r
 	var v int64
-	switch r.Intn(6) {
+	switch r.Intn(8) {
 	case 0:
 		v = 1<<24 + 1 + int64(r.Intn(1<<20))
 	case 1:
@@ -235,6 +238,10 @@ func (g *gen) bigInt(lim int64) int64 {
 		v = lim - int64(r.Intn(4))
 	case 3:
 		v = []int64{16777217, 33554435, 20000001, 2147483649, 4294967295, 4294967297, 1099511627777, 123456789, 987654321987}[r.Intn(9)]
+	case 4: // around 2^53 and beyond it: not representable in float64
+		v = []int64{1<<53 - 1, 1<<53 + 1, 1<<53 + 3, 1<<54 + 1, 36028797018963969, 1<<62 + 1, math.MaxInt64 - 2, math.MaxInt64}[r.Intn(8)]
+	case 5:
+		v = 1<<53 + 1 + 2*r.Int63n(1<<61)
 	default:
 		v = 1<<24 + r.Int63n(lim-1<<24)
 	}
@@ -245,12 +252,14 @@ func (g *gen) bigInt(lim int64) int64 {
 	return v
 }
 
-// spellings of an integer that Parser.int() accepts: digits, digits ".0", exponent form (only when
-// the shortest float64 spelling is exact, |v| <= 2^53)
+// spellings of an integer that Parser.int() accepts: digits (exact for every int64), digits ".0" and
+// exponent form (these go through float64: only when that is exact, |v| <= 2^53)
 func (g *gen) intText(v int64) string {
 	switch g.r.Intn(6) {
 	case 0:
-		return strconv.FormatInt(v, 10) + ".0"
+		if v >= -(1<<53) && v <= 1<<53 {
+			return strconv.FormatInt(v, 10) + ".0"
+		}
 	case 1:
 		if v >= -(1<<53) && v <= 1<<53 {
 			return strconv.FormatFloat(float64(v), 'e', -1, 64)
@@ -596,9 +605,9 @@ func (g *gen) file() *fileT {
 		case 1:
 			return "-10000 10000"
 		case 2:
-			return fmt.Sprintf("%s %s", g.intText(-g.bigInt(1<<53)), g.intText(g.bigInt(1<<53)))
+			return fmt.Sprintf("%s %s", g.intText(-g.bigInt(math.MaxInt64)), g.intText(g.bigInt(math.MaxInt64)))
 		}
-		return "0 " + g.intText(g.bigInt(1<<53))
+		return "0 " + g.intText(g.bigInt(math.MaxInt64))
 	}
 	fixed("BA_DEF_ BO_ \"GenMsgCycleTime\" INT " + rng() + ";")
 	fixed("BA_DEF_ BO_ \"GenMsgDelayTime\" INT " + rng() + ";")
@@ -615,7 +624,7 @@ func (g *gen) file() *fileT {
 		if r.Intn(2) == 0 {
 			return "0"
 		}
-		return g.intText(g.bigInt(1 << 53))
+		return g.intText(g.bigInt(math.MaxInt64))
 	}
 	fixed("BA_DEF_DEF_ \"GenMsgCycleTime\" " + dflt() + ";")
 	fixed("BA_DEF_DEF_ \"GenSigStartValue\" " + dflt() + ";")
@@ -728,7 +737,7 @@ func (g *gen) file() *fileT {
 			meta(fmt.Sprintf("BA_ \"GenMsgDelayTime\" BO_ %d %s;", spell(id), v))
 		}
 		if r.Intn(6) == 0 {
-			meta(fmt.Sprintf("BA_ \"MsgHex\" BO_ %d %s;", spell(id), g.intText(g.bigInt(1<<53))))
+			meta(fmt.Sprintf("BA_ \"MsgHex\" BO_ %d %s;", spell(id), g.intText(g.bigInt(math.MaxInt64))))
 		}
 		if r.Intn(6) == 0 {
 			meta(fmt.Sprintf("BA_ \"Weight\" BO_ %d 2.5;", spell(id)))
@@ -768,10 +777,11 @@ func (g *gen) file() *fileT {
 			}
 		}
 		if r.Intn(4) == 0 || (s.len > 24 && r.Intn(3) == 0) {
-			v := []string{"0", "1", "2", "-3", "10000", "255", "7.0", "-9223372036854775808"}[r.Intn(8)]
+			v := []string{"0", "1", "2", "-3", "10000", "255", "7.0", "-9223372036854775808", "9223372036854775807", "9007199254740993",
+				"-9007199254740993", "-9223372036854775807"}[r.Intn(12)]
 			if s.len > 24 || r.Intn(3) == 0 {
-				// start values of wide signals: beyond 2^24 / 2^32, up to 2^53, both signs
-				x := g.bigInt(1 << 53)
+				// start values of wide signals: beyond 2^24 / 2^32 / 2^53, up to the int64 limits, both signs
+				x := g.bigInt(math.MaxInt64)
 				if r.Intn(3) == 0 {
 					x = -x
 				}
@@ -786,7 +796,7 @@ func (g *gen) file() *fileT {
 			metaSig(s.name, fmt.Sprintf("BA_ \"FieldType\" SG_ %s \"%s\";", target, []string{s.name, g.pick(textPool), g.pick(unitPool)}[r.Intn(3)]))
 		}
 		if r.Intn(8) == 0 {
-			metaSig(s.name, fmt.Sprintf("BA_ \"SigHex\" SG_ %s %s;", target, g.intText(g.bigInt(1<<53))))
+			metaSig(s.name, fmt.Sprintf("BA_ \"SigHex\" SG_ %s %s;", target, g.intText(g.bigInt(math.MaxInt64))))
 		}
 	}
 	// metadata that references nothing declared: must warn, must attach to nothing
@@ -819,7 +829,7 @@ func (g *gen) file() *fileT {
 		case 6:
 			meta(fmt.Sprintf("BA_ \"GenMsgCycleTime\" BO_ %d 100;", uid))
 		case 7:
-			metaSig(someSig, fmt.Sprintf("BA_ \"GenSigStartValue\" SG_ %d %s %s;", uid, someSig, g.intText(g.bigInt(1<<53))))
+			metaSig(someSig, fmt.Sprintf("BA_ \"GenSigStartValue\" SG_ %d %s %s;", uid, someSig, g.intText(g.bigInt(math.MaxInt64))))
 		case 8:
 			if len(msgIDs) > 0 {
 				meta(fmt.Sprintf("BA_ \"GenSigStartValue\" SG_ %d Ghost%d 1;", msgIDs[r.Intn(len(msgIDs))], i))
